@@ -643,7 +643,8 @@ class TopLevelVisitor(ast.NodeVisitor):
 
                 # The startline should also begin with the same triple quote
                 # Account for raw strings. Note f-strings cannot be docstrings
-                if startline.strip().startswith((trip, 'r' + trip)):
+                if startline.strip().startswith(
+                        (trip, 'r' + trip, 'R' + trip, 'u' + trip, 'U' + trip)):
                     # Both conditions pass.
                     start = cand_start_
                     break
